@@ -34,6 +34,7 @@ SitesAll == ValidSites
 SitesPlacement == {"mut", "sub", "xC", "xD", "xK", "xV", "xG", "xJ", "xIn4", "xCu2", "U.members", "B.ifaces", "dirs",
                    "th.Q", "th.A", "th.A.i", "th.I", "th.In", "th.U", "th.C"}
 SitesSlots == {"Q.g.x", "In3.k", "xC", "xK", "mut", "dirs", "dep.E.ONE", "th.In"}
-SitesCore == {"mut", "xC", "xK", "xV", "Q.g.x", "In3.k", "dep.Q.old", "dep.E.ONE", "dep.I.x", "th.A", "th.U",
+SitesTypes == {"Q.t", "xC", "xD", "xK", "xV", "xG", "mut", "sub", "U.members", "B.ifaces"}
+SitesCore =={"mut", "xC", "xK", "xV", "Q.g.x", "In3.k", "dep.Q.old", "dep.E.ONE", "dep.I.x", "th.A", "th.U",
               "dirs", "U.members"}
 =============================================================================
